@@ -112,9 +112,9 @@ fn replay(_ctx: &Ctx, group: &str, case: &Value) -> CaseResult {
 pub fn def() -> PropDef {
     PropDef {
         id: "C09",
-        rule: "dense-drains groups: C01's case type with at least one real drain action per side; after every encoder/decoder call the consumable bytes are recorded: a byte once observable never changes, drained bytes are exactly the observable prefix, everything observable is a prefix of drained ++ finish(), and that equals the complete output (one-call encoding / the original message); lag = total_size - consumable bytes must be <= 2^20 + 64008 + 2 for the Encoder and 0 (with iovs() Ok) for the Decoder. long-streams: plain streams of 2..24 MiB (16..320 MiB in thorough) of four shapes (stuff-free, FE/FD-dense, mixed, rare stuff sequences) fed through Encoder, Decoder or an Encoder->Decoder pipeline in phases of pieces of 1 B..512 KiB with all four input methods, draining every k-th call by slices or bytes. Non-trivial: a drain that stops in the middle of a slice, or a call after which the encoder lag exceeds 64 KiB. Distinct: hash of the serialised case.",
+        rule: "dense-drains groups: C01's case type with at least one real drain action per side; after every encoder/decoder call the consumable bytes are recorded: a byte once observable never changes, drained bytes are exactly the observable prefix, everything observable is a prefix of drained ++ finish(), and that equals the complete output (one-call encoding / the original message); lag = total_size - consumable bytes must be <= 2^20 + 64008 + 2 for the Encoder and 0 (with iovs() Ok) for the Decoder. long-streams: plain streams of 2..24 MiB (16..320 MiB in thorough) of four shapes (stuff-free, FE/FD-dense, mixed, rare stuff sequences) fed through Encoder, Decoder or an Encoder->Decoder pipeline in phases of pieces of 1 B..1 MiB (including runs of pieces of exactly the maximum) with all four input methods, draining every k-th call by slices or bytes. Non-trivial: a drain that stops in the middle of a slice, or a call after which the encoder lag exceeds 64 KiB. Distinct: hash of the serialised case.",
         assumptions: &[
-            "the arena is never asked for more than 512 KiB at once (the lag bound is 'one arena chunk + one HCOBS chunk and its header')",
+            "the arena is never asked for more than 1 MiB at once (the lag bound is 'one arena chunk + one HCOBS chunk and its header')",
             "the lag bound is checked as a constant, not minimised",
         ],
         exhaustive_note: None,
